@@ -32,6 +32,9 @@ CHECKS = {
     'C12': ('symbolic execution of the real predict_* and of the documented closed forms in one path (sx engine) + z3 equality per value; sat models replayed against mpmath',
             'For every model and the listed shapes (up to 8 teams / 8 players in thorough) and all mu, sigma >= 0, beta > 0: every value returned by predict_win, predict_draw and predict_rank is the same real-valued term as the documented closed form.',
             TRUST + ' predict_rank: the rank assignment is stubbed here (decided in C11).', '6/C12'),
+    'C13': ('symbolic execution of the real rate()/predict_* over lazy kind proxies (z3 Int tags per argument position, fork at first use); per-path three-valued evaluation of the property\'s definition of malformed; side-effect monitors',
+            'The paths partition the whole argument grammar (containers, team shapes, foreign ratings, element kinds at every position, both selectors): rejected paths are malformed for every completion of the uninspected positions, accepted paths well-formed, no other exception class escapes, and a rejected call leaves every rating and the model untouched.',
+            'Trusted: CPython semantics of the executed operations on the menu representatives; the menus (printed in the evidence) stand for their kinds.', '6/C13'),
     'C14': ('symbolic execution of the real rate()/predict_* with write/inspection monitors + two-run z3 equality (history vs fresh model, original vs rebuilt ratings)',
             'On every path of every call variant (per-call tau symbolic, limit_sigma in {None,True,False}) no model attribute is written, ids/names/hash are never consulted, and a call after an arbitrary earlier call returns the same terms as on a fresh model. Thread interleavings and hash seeds are not explored; only the non-interference premises are checked.',
             TRUST + ' Interleavings/PYTHONHASHSEED themselves: outside (paper argument from the checked premises).', '6/C14'),
